@@ -21,12 +21,42 @@ def trans_check(sd, hist, op, s0, key0, s, key, idb, exc, memo):
         v.append(((PROP + ".state-changed", *tag), "rejected %r (%s) changed the internal state" % (op, exc)))
     elif idb is not None and e2.ids(s) != idb:
         v.append(((PROP + ".component-object-replaced", *tag), "rejected %r" % (op,)))
+    if key == key0 and e2.kfull(s, memo.get("g2", ()), extra=True)[3:] != e2.kfull(s0, memo.get("g2", ()), extra=True)[3:]:
+        # the visible state is unchanged but some other attribute of the object is not: "later calls behave as if the call had never been made"
+        # is then CHECKED: every op of the menu, and every second op after it, must have the same outcome with and without the rejected call
+        v += divergence(sd, hist, op)
     if _DEEP["on"]:
         if "pre" not in memo:
             memo["pre"] = all_reports(s0, REPORTS)
         post = all_reports(s, REPORTS)
         for rep, d in diff_reports(memo["pre"], post)[:3]:
             v.append(((PROP + ".report-changed", rep, *tag), "rejected %r: %s" % (op, d)))
+    return v
+
+
+def outcome(sd, hist):
+    s, g = e2.replay(sd, hist[:-1])
+    g2, exc = e2.step(s, g, hist[-1])
+    return (type(exc).__name__ if exc is not None else "accepted", e2.khash(e2.kfull(s, g2, extra=False))), s
+
+
+def divergence(sd, hist, op):
+    v = []
+    s0, _ = e2.replay(sd, hist)
+    for c1, o1 in e2.ops(s0, 2, "RI", False):
+        a, sa = outcome(sd, hist + [o1])
+        b, _ = outcome(sd, hist + [op, o1])
+        if a != b:
+            v.append(((PROP + ".later-call-differs", op[0], o1[0]), "after the rejected %r the call %r gives %r instead of %r" % (op, o1, b[0], a[0])))
+            return v
+        if a[0] != "accepted":
+            continue
+        for c2, o2 in e2.ops(sa, 1, "RI", False):
+            a2, _ = outcome(sd, hist + [o1, o2])
+            b2, _ = outcome(sd, hist + [op, o1, o2])
+            if a2 != b2:
+                v.append(((PROP + ".later-call-differs", op[0], o1[0] + ">" + o2[0]), "after the rejected %r the calls %r, %r give %r instead of %r" % (op, o1, o2, b2[0], a2[0])))
+                return v
     return v
 
 
